@@ -171,10 +171,25 @@ class Problem:
             return (np.stack([c[0], c[1], c[0] * c[1]], axis=-1),)
         raise ValueError(b)
 
+    def _sidelog(self, x0):
+        """Schedule perturbation + completion log for pool runs (scalar mode only): sleep a point-dependent
+        pseudo-random time, then append (monotonic time, pid, x0) to a side file shared by all workers."""
+        import os
+        import time
+        h = int.from_bytes(np.float64(x0).tobytes()[:3], 'little')
+        time.sleep((h % 7) * 0.0004)
+        fd = os.open(self.spec['sidelog'], os.O_WRONLY | os.O_APPEND | os.O_CREAT, 0o644)
+        try:
+            os.write(fd, ('%d %d %s\n' % (time.monotonic_ns(), os.getpid(), float(x0).hex())).encode())
+        finally:
+            os.close(fd)
+
     def __call__(self, arg):
         c, extra = self._coords(arg)
         n = 1 if np.ndim(c[0]) == 0 else len(c[0])
         self.n_calls += n
+        if self.spec.get('sidelog') and n == 1 and np.ndim(c[0]) == 0:
+            self._sidelog(c[0])
         if self.fail_at is not None and self.n_calls >= self.fail_at:
             self.fail_at = None
             raise InjectedFault('likelihood fault injected at evaluation %d' % self.n_calls)
